@@ -149,15 +149,15 @@ Proof.
   { intros e0. rewrite get_ent_set_ent. destruct (decide (e0 = e)) as [->|]; [|tauto].
     split; intros; congruence. }
   destruct (dirty s) as [d|] eqn:Ed.
-  - wf_some H Ed. unfold WF. simpl. rewrite Ed. repeat split; auto.
-    + apply (HB _ _ H).
-    + rewrite Hx. apply (HB _ _ H).
-    + intros R. rewrite get_ent_set_ent. destruct (decide (e0 = e)) as [->|].
-      * destruct Hv as [Hv|Hv]; [exact Hv|]. exfalso. eapply Hv; eauto.
-      * destruct (HB _ _ H) as (_ & _ & Hb & _). auto.
-    + apply (HB _ _ H).
+  - wf_some H Ed. unfold WF. simpl. rewrite Ed.
+    split; [exact Hri|]. split; [exact Hrb|]. split; [exact Ham|]. split; [exact Hdi|]. split.
+    + intros k0 e0 Hk. destruct (HB _ _ Hk) as (B1 & B2 & B3 & B4).
+      split; [exact B1|]. split; [rewrite Hx; exact B2|]. split; [|exact B4].
+      intros R. rewrite get_ent_set_ent. destruct (decide (e0 = e)) as [->|]; [|auto].
+      destruct Hv as [Hv|Hv]; [exact Hv|]. exfalso. eapply Hv; eauto.
     + intros k0 e0 R. rewrite (decide_ext _ _ _ _ (Hx e0)). auto.
-  - wf_none H Ed. unfold WF. simpl. rewrite Ed. repeat split; auto.
+  - wf_none H Ed. unfold WF. simpl. rewrite Ed.
+    split; [exact Hri|]. split; [exact Hrb|]. split; [exact Ham|].
     intros k0 e0 R. rewrite Hx. eauto.
 Qed.
 
@@ -187,13 +187,11 @@ Proof.
     { intros k e0 Hk. rewrite get_ent_set_ent, decide_False; auto. intros ->. eapply U2; eauto. }
     assert (Hr : forall k e0, read_m s !! k = Some e0 -> get_ent (set_ent s e p) e0 = get_ent s e0).
     { intros k e0 Hk. rewrite get_ent_set_ent, decide_False; auto. intros ->. eapply U1; eauto. }
-    repeat split; auto.
-    + apply (HB _ _ H).
-    + rewrite (Hd _ _ H). apply (HB _ _ H).
-    + rewrite (Hd _ _ H). apply (HB _ _ H).
-    + apply (HB _ _ H).
+    split; [exact Hri|]. split; [exact Hrb|]. split; [exact Ham|]. split; [exact Hdi|]. split.
+    + intros k0 e0 Hk. rewrite (Hd _ _ Hk). apply (HB _ _ Hk).
     + intros k0 e0 R. rewrite (Hr _ _ R). auto.
-  - wf_none H Ed. unfold WF. simpl. rewrite Ed. repeat split; auto.
+  - wf_none H Ed. unfold WF. simpl. rewrite Ed.
+    split; [exact Hri|]. split; [exact Hrb|]. split; [exact Ham|].
     intros k0 e0 R. rewrite get_ent_set_ent, decide_False; eauto. intros ->. eapply U1; eauto.
 Qed.
 
@@ -680,15 +678,19 @@ Lemma list_to_map_omap (g : Z -> option Z) l k :
   = if decide (k ∈ l) then g k else None.
 Proof.
   induction l as [|a l IH].
-  - case_decide as Hin; [apply elem_of_nil in Hin; contradiction|]. apply lookup_empty.
+  - destruct (decide (k ∈ [])) as [Hin|Hin]; [apply elem_of_nil in Hin; contradiction|]. apply lookup_empty.
   - cbn [omap list_omap]. destruct (g a) as [v|] eqn:Ga.
     + rewrite list_to_map_cons. destruct (decide (k = a)) as [->|N].
-      * rewrite lookup_insert. case_decide as Hin; [congruence|]. exfalso. apply Hin, elem_of_cons. auto.
+      * rewrite lookup_insert. destruct (decide (a ∈ a :: l)) as [Hin|Hin]; [congruence|].
+        exfalso. apply Hin, elem_of_cons. auto.
       * rewrite lookup_insert_ne by congruence. rewrite IH.
-        case_decide as Hin; case_decide as Hin'; try reflexivity; exfalso.
+        destruct (decide (k ∈ l)) as [Hin|Hin]; destruct (decide (k ∈ a :: l)) as [Hin'|Hin'];
+          try reflexivity; exfalso.
         -- apply Hin', elem_of_cons. auto.
         -- apply elem_of_cons in Hin' as [?|?]; auto.
-    + rewrite IH. case_decide as Hin; case_decide as Hin'; try reflexivity.
+    + rewrite IH.
+      destruct (decide (k ∈ l)) as [Hin|Hin]; destruct (decide (k ∈ a :: l)) as [Hin'|Hin'];
+          try reflexivity.
       * exfalso. apply Hin', elem_of_cons. auto.
       * apply elem_of_cons in Hin' as [->|?]; [congruence|contradiction].
 Qed.
@@ -710,3 +712,63 @@ Proof.
   intros _. unfold abs_map. rewrite list_to_map_omap. destruct (decide (k ∈ all_keys s)) as [|N]; [reflexivity|].
   destruct (abs_lookup s k) as [v|] eqn:A; [|reflexivity]. exfalso. apply N. eapply abs_lookup_all_keys; eauto.
 Qed.
+
+(* ---- Range, stated for an iteration order without repetitions (Go's range over read.m visits
+   each key once): f is called at most once per key, only with the value the key holds, and a
+   Range that is not stopped visits every present key. ---- *)
+Lemma elem_of_live_pairs s l k v : (k, v) ∈ live_pairs s l <-> k ∈ l /\ abs_lookup s k = Some v.
+Proof.
+  unfold live_pairs. rewrite elem_of_list_omap. split.
+  - intros (x & Hin & Hx). destruct (abs_lookup s x) as [v'|] eqn:A; [|discriminate].
+    injection Hx as -> ->. auto.
+  - intros [Hin A]. exists k. rewrite A. auto.
+Qed.
+
+Lemma NoDup_live_pairs s l : base.NoDup l -> base.NoDup (map fst (live_pairs s l)).
+Proof.
+  induction l as [|k l IH]; intros ND.
+  - constructor.
+  - apply stdpp.list.NoDup_cons in ND as [Hk ND]. rewrite live_pairs_cons.
+    destruct (abs_lookup s k) as [v|]; [|auto]. cbn [map fst]. apply stdpp.list.NoDup_cons. split; [|auto].
+    intros Hin. change (map fst (live_pairs s l)) with (fst <$> live_pairs s l) in Hin.
+    apply elem_of_list_fmap in Hin as ([k' v'] & -> & Hin). apply elem_of_live_pairs in Hin as [Hin _].
+    exact (Hk Hin).
+Qed.
+
+Lemma elem_of_firstn {A} n (l : list A) x : x ∈ firstn n l -> x ∈ l.
+Proof.
+  revert n. induction l as [|a l IH]; intros [|n]; simpl; intros Hin;
+    try (apply elem_of_nil in Hin; contradiction).
+  apply elem_of_cons in Hin as [->|Hin]; apply elem_of_cons; eauto.
+Qed.
+
+Lemma NoDup_firstn {A} n (l : list A) : base.NoDup l -> base.NoDup (firstn n l).
+Proof.
+  revert n. induction l as [|a l IH]; intros [|n] ND; simpl; try constructor.
+  - apply stdpp.list.NoDup_cons in ND as [Ha ND]. intros Hin. apply Ha. eapply elem_of_firstn; eauto.
+  - apply stdpp.list.NoDup_cons in ND as [Ha ND]. auto.
+Qed.
+
+Lemma Range_sound s order stop : WF s -> base.NoDup order ->
+  base.NoDup (map fst (Range s order stop).2) /\
+  forall k v, (k, v) ∈ (Range s order stop).2 -> k ∈ order /\ abs_lookup s k = Some v.
+Proof.
+  intros H ND. destruct (Range_spec s order stop H) as (_ & _ & _ & ->).
+  destruct stop as [n|].
+  - split.
+    + rewrite <- firstn_map. apply NoDup_firstn, NoDup_live_pairs, ND.
+    + intros k v Hin. apply elem_of_firstn in Hin. apply elem_of_live_pairs. exact Hin.
+  - split; [apply NoDup_live_pairs, ND|]. intros k v Hin. apply elem_of_live_pairs. exact Hin.
+Qed.
+
+Lemma Range_complete s order : WF s ->
+  (forall k, is_Some (read_m (Range s order None).1 !! k) -> k ∈ order) ->
+  forall k v, abs_lookup s k = Some v -> (k, v) ∈ (Range s order None).2.
+Proof.
+  intros H Hall k v A. destruct (Range_spec s order None H) as (_ & _ & P & ->).
+  apply elem_of_live_pairs. split; [|exact A]. apply Hall. eapply P; eauto.
+Qed.
+
+Lemma Delete_spec s k : WF s ->
+  WF (Delete s k) /\ forall k', abs_lookup (Delete s k) k' = if decide (k' = k) then None else abs_lookup s k'.
+Proof. intros H. destruct (LoadAndDelete_spec s k H) as (W & _ & A). split; assumption. Qed.
